@@ -64,9 +64,12 @@ def check(chk: Check) -> None:
                             'branch of the cast and in insert / pop', floor=3)
     R3 = chk.rule('C14.R3', 'failed reads raise ParserError and change nothing: every keyed read of an argument container '
                             'and every pop converts the lookup error and no mutation of the container precedes it', floor=3)
-    chk.decided += ['sibling agreement of the key normalisation across the five keyed accessors and dict literals (R1)',
+    R4 = chk.rule('C14.R4', 'explicit bounds tests in front of a list access admit every valid position: a comparison between the '
+                            'position and len(container) that guards the access holds for all -len <= k <= len-1 (linear check at both ends)', floor=1)
+    chk.decided += ['bounds tests never turn away a valid (incl. negative) position (R4)',
+                    'sibling agreement of the key normalisation across the five keyed accessors and dict literals (R1)',
                     'truncating index conversion (R2)', 'lookup-error conversion without prior mutation (R3)']
-    chk.not_decided += ['model equivalence under operation sequences, negative-index arithmetic, keys/values/items/len/in '
+    chk.not_decided += ['model equivalence under operation sequences, negative-index arithmetic beyond explicit bounds tests, keys/values/items/len/in '
                         'consistency: run-time container semantics of Python lists and dicts (no code shape to check)']
     tab = functab.table(F)
     # the keyed accessors: lowered index forms (from the grammar) + get
@@ -143,6 +146,8 @@ def check(chk: Check) -> None:
                             problems.append('`%s` passes %s as position (Decimal positions must be truncated with int())' % (e.text(), show(a0)))
         chk.require(not problems and n, R2, 'FUNCTIONS[%r]' % key, fi.where, '; '.join(sorted(set(problems))) or 'position converted with int()')
 
+    index_guards(chk, R4, acc)
+
     # --------------------------------------------------------------------- R3
     sites = lookup_sites(chk)
     for key, ok, where, det in sites:
@@ -157,6 +162,111 @@ def check(chk: Check) -> None:
         muts = mutation_events(F, SymExec(F, fi).run())
         chk.require(not muts, R3, 'FUNCTIONS[%r] reads without writing' % name, fi.where,
                     '; '.join(sorted({m[2] for m in muts})) or 'no mutation of the container in the reader')
+
+
+def _lin(t, V, N):
+    """t as (a, b, c) meaning a*V + b*N + c, or None."""
+    t = A.strip_ids(freeze(t))
+    if t == V:
+        return (1, 0, 0)
+    if t == N:
+        return (0, 1, 0)
+    if isinstance(t, tuple) and t:
+        if t[0] == 'const' and isinstance(t[1], int) and not isinstance(t[1], bool):
+            return (0, 0, t[1])
+        if t[0] == 'unop' and t[1] in ('-', 'neg', 'USub') and len(t) == 3:
+            x = _lin(t[2], V, N)
+            return None if x is None else (-x[0], -x[1], -x[2])
+        if t[0] == 'binop' and t[1] in ('+', '-'):
+            x, y = _lin(t[2], V, N), _lin(t[3], V, N)
+            if x is None or y is None:
+                return None
+            sg = 1 if t[1] == '+' else -1
+            return (x[0] + sg * y[0], x[1] + sg * y[1], x[2] + sg * y[2])
+    return None
+
+
+def _admits_all_valid(a, b, c, strict: bool) -> bool:
+    """Does  a*K + b*n + c >= 0  (> 0 when strict) hold for every n >= 1 and every valid list index -n <= K <= n-1 ?
+    A linear function of K over an interval is minimal at an end point; each end point gives a linear function p*n + q of n,
+    which is >= 0 for all n >= 1 iff p >= 0 and p + q >= 0."""
+    for p_, q_ in (((b - a), c), ((a + b), (c - a))):      # K = -n ;  K = n - 1
+        lo = p_ + q_
+        if p_ < 0 or (lo <= 0 if strict else lo < 0):
+            return False
+    return True
+
+
+def index_guards(chk: Check, R4: str, acc) -> None:
+    """Explicit bounds tests in front of a list access must not turn away a valid position (-len <= k < len)."""
+    F = chk.facts
+    n_guards = 0
+    for name, (q, ci, ki) in sorted(acc.items()):
+        fi = F.func(q)
+        params = [a.arg for a in fi.node.args.args]
+        Cn = ('param', params[ci])
+        N = ('pcall', 'len', (Cn,))
+        access_paths = []
+        for p in SymExec(F, fi).run():
+            isdict = None
+            for c, v, _ in p.assumptions:
+                if isinstance(c, tuple) and c[:2] == ('pcall', 'isinstance') and c[2][0] == Cn and om.mentions(c[2][1], DICT):
+                    isdict = v
+            if isdict is True:
+                continue
+            idx = None
+            for e in p.events:
+                if e.kind in ('load_sub', 'store_sub', 'aug_sub', 'del_sub') and freeze(e.obj) == Cn:
+                    idx = A.strip_ids(freeze(e.index))
+                elif e.kind == 'call':
+                    f = freeze(e.func)
+                    if isinstance(f, tuple) and f and f[0] == 'attr' and f[1] == Cn and f[2] == 'pop' and e.args:
+                        idx = A.strip_ids(freeze(e.args[0]))
+            if idx is None:
+                continue
+            cons = []
+            for c, v, _ in p.assumptions:
+                cc = c
+                vv = v
+                while isinstance(cc, tuple) and cc and cc[0] == 'not':
+                    cc, vv = cc[1], not vv
+                if not (isinstance(cc, tuple) and cc and cc[0] == 'cmp' and cc[1] in ('<', '<=', '>', '>=', '==', '!=')):
+                    continue
+                L, R_ = _lin(cc[2], idx, N), _lin(cc[3], idx, N)
+                if L is None or R_ is None:
+                    continue
+                a, b, c0 = L[0] - R_[0], L[1] - R_[1], L[2] - R_[2]
+                if a == 0:
+                    continue            # does not constrain the position
+                op = cc[1]
+                if not vv:
+                    op = {'<': '>=', '<=': '>', '>': '<=', '>=': '<', '==': '!=', '!=': '=='}[op]
+                if op in ('<', '<='):
+                    a, b, c0, op = -a, -b, -c0, {'<': '>', '<=': '>='}[op]
+                cons.append((a, b, c0, op, show(c), v))
+            access_paths.append((p, cons))
+        guarded = [x for x in access_paths if x[1]]
+        if not guarded:
+            continue
+        n_guards += 1
+        shapes = {tuple((a, b, c0, op) for a, b, c0, op, _, _ in cons) for _, cons in access_paths}
+        if len(shapes) > 1:
+            chk.ok(R4, 'FUNCTIONS[%r] -> %s' % (name, q), fi.where, 'the access is reached under %d different sets of bounds tests: their union '
+                                                                 'is not analysed' % len(shapes))
+            continue
+        problems = []
+        for a, b, c0, op, text, v in guarded[0][1]:
+            if op in ('==',):
+                problems.append('`%s` admits a single position only' % text)
+            elif op == '!=':
+                continue
+            elif not _admits_all_valid(a, b, c0, strict=(op == '>')):
+                problems.append('the access is only reached when `%s` is %s: that turns away a valid position (a list of n elements '
+                                'has the positions -n .. n-1; check k = -n and k = n-1)' % (text, v))
+        chk.require(not problems, R4, 'FUNCTIONS[%r] -> %s' % (name, q), fi.where, '; '.join(sorted(set(problems))) or
+                    'bounds test(s) in front of the access admit every position -n .. n-1')
+    if n_guards == 0:
+        chk.ok(R4, 'keyed accessors', 'smartquery/functions.py', 'no accessor tests the position explicitly (lookup errors are converted instead, R3)')
 
 
 def _literal_key_cast(chk: Check):
